@@ -226,6 +226,12 @@ fn len(src: &mut Src, fuel: &mut u32) -> usize {
     if *fuel == 0 {
         return 0;
     }
+    // now and then a collection longer than the nesting limits are deep (32 / 64): state that leaks
+    // from one element to the next only shows with that many elements
+    if *fuel >= 6 && src.chance(10) {
+        *fuel = 0;
+        return 33 + src.below(40);
+    }
     let n = src.weighted(&[4, 5, 4, 2]);
     let n = if n == 3 { 3 + src.below(3) } else { n };
     *fuel = fuel.saturating_sub(n as u32);
